@@ -13,6 +13,7 @@ open Proto Ex
                                               `a` ExtractArchive and `am` ExtractArchiveWithMask on the archive written
                                               to a file; `missing` / `cut` = ExtractArchive(WithMask: mask word non-zero
                                               selects it) on a path that does not exist / a file cut to 100 bytes
+      `r:2`                                   the archive is extracted twice into the same destination (`ok,err` …)
       `w:<n>`                                 write fault: during the extraction no file can grow beyond n bytes (the
                                               write of a longer payload stops after n bytes with an error)
       `e:<k>:<name>:<mode>:<seed>:<len>:<present>:<link>`   archive entry;
@@ -77,6 +78,13 @@ def parseEntry (zip : Bool) (f : List String) : Option Entry :=
         | _ => none)
       -- archive/zip writes an entry whose name ends in a slash without a payload
       if nm.getLast? == some 47 then pure { kind := kind, name := nm, mode := m } else
+      -- a file entry whose central-directory size is one more ("L": the reader reports the missing byte after the
+      -- whole payload) or one less ("S": the reader refuses the first chunk, nothing is written) than its payload
+      if k == "f" && kind == .reg && lk == [76] then
+        pure { kind := kind, name := nm, mode := m, data := pattern s n, short := true } else
+      if k == "f" && kind == .reg && lk == [83] then
+        pure { kind := kind, name := nm, mode := m, data := [], short := true } else
+      let short := short && k != "d"
       let data := if short then flip0 (pattern s n) else pattern s n
       -- a symlink entry's payload is its target; a corrupt one (present = 0) cannot be read
       let short := if kind == .symlink then (pr == 0 && lk != []) else short
@@ -84,9 +92,12 @@ def parseEntry (zip : Bool) (f : List String) : Option Entry :=
     else
       let kind ← (match k with
         | "r" => some Kind.reg | "d" => some Kind.dir | "s" => some Kind.symlink | "l" => some Kind.link
-        | "o" => some Kind.other | "x" => some Kind.corrupt | _ => none)
-      -- archive/tar's writer refuses a regular or fifo entry whose name ends in a slash
-      if (kind == .reg || kind == .other) && nm.getLast? == some 47 then none else
+        | "o" => some Kind.other | "c" => some Kind.other | "b" => some Kind.other | "n" => some Kind.other
+        | "g" => some Kind.other | "x" => some Kind.corrupt | _ => none)
+      -- the reader hands a PAX global header over under the name the writer gave it
+      let nm := if k == "g" then "GlobalHead.0.0".toUTF8.toList.map (·.toNat) else nm
+      -- archive/tar's writer refuses a regular, fifo or device entry whose name ends in a slash
+      if (kind == .reg || kind == .other) && k != "g" && nm.getLast? == some 47 then none else
       let data := if kind == .reg then (pattern s n).take pr else []
       pure { kind := kind, name := nm, mode := m, data := data, short := (kind == .reg && short), link := lk }
   | _ => none
@@ -128,7 +139,8 @@ def step (_ : Unit) (line : String) : Unit × String :=
       | some mk =>
         let zip := fmt == "zip"
         let via := (items.filter (·.startsWith "v:")).getLast?.getD "v:"
-        let items := items.filter (fun w => !w.startsWith "v:")
+        let twice := items.contains "r:2"
+        let items := items.filter (fun w => !w.startsWith "v:" && !w.startsWith "r:")
         if !["v:", "v:x", "v:a", "v:am", "v:missing", "v:cut"].contains via then "bad-op" else
         let rec go (fs : FS) (es : List Entry) (lim : Option Nat) : List String → Option (FS × List Entry × Option Nat)
           | [] => some (fs, es.reverse, lim)
@@ -150,7 +162,7 @@ def step (_ : Unit) (line : String) : Unit × String :=
           -- central directory and does not open
           let es := if via == "v:cut" && !zip then [{ kind := .corrupt, name := [] }] else es
           let opened := !(via == "v:missing" || (via == "v:cut" && zip))
-          let r :=
+          let run (fs : FS) : FS × Bool :=
             match via, zip with
             | "v:x", false => tarExtractDefault fs dstRoot es
             | "v:x", true => zipExtractDefault fs dstRoot es
@@ -162,7 +174,11 @@ def step (_ : Unit) (line : String) : Unit × String :=
             | "v:", true => zipExtract fs dstRoot mk es
             | _, false => if mk == 0 then tarExtractArchive opened fs dstRoot es else tarExtractArchiveWithMask opened fs dstRoot mk es
             | _, true => if mk == 0 then zipExtractArchive opened fs dstRoot es else zipExtractArchiveWithMask opened fs dstRoot mk es
-          (if r.2 then "ok" else "err") ++ (let d := dump r.1; if d.isEmpty then "" else " " ++ d)
+          let word (b : Bool) := if b then "ok" else "err"
+          let r := run fs
+          -- `r:2`: the same archive is extracted a second time into what the first run left
+          let (fin, res) := if twice then (let r2 := run r.1; (r2.1, word r.2 ++ "," ++ word r2.2)) else (r.1, word r.2)
+          res ++ (let d := dump fin; if d.isEmpty then "" else " " ++ d)
     | _ => "bad-op"
   ((), out)
 
